@@ -110,6 +110,21 @@ fn operand(n: usize, limit: i64) -> BoxedStrategy<Vec<i64>> {
             v
         }),
         2 => proptest::collection::vec(-200i64..=200, n),
+        // few-term polynomials at structured positions (0, n/4, n/2, 3n/4, n-1, anywhere): their
+        // spectra take few distinct values or are constant up to conjugation - the shapes that data-
+        // dependent shortcuts in a transform key on (round 12)
+        3 => proptest::collection::vec(
+            (prop_oneof![Just(0usize), Just(n / 2), Just(n / 4), Just(3 * n / 4), Just(n - 1), 0usize..n],
+             prop_oneof![Just(limit), Just(-limit), -limit..=limit, -1000i64..=1000, Just(1i64), Just(-1i64)]),
+            2..=4,
+        )
+        .prop_map(move |terms| {
+            let mut v = vec![0i64; n];
+            for (i, x) in terms {
+                v[i] = x.clamp(-limit, limit);
+            }
+            v
+        }),
     ]
     .boxed()
 }
@@ -202,6 +217,59 @@ impl Sub for Product {
     }
 }
 
+/// Every two-term polynomial c + d X^k (all n, all k, a fixed set of (c, d)) against a fixed dense b:
+/// complete in the position, so a shortcut keyed on one sparse shape cannot hide between samples.
+#[derive(Clone, Debug, Serialize, Deserialize)]
+pub struct TwoTermCase {
+    n: usize,
+    k: usize,
+    c: i64,
+    d: i64,
+}
+
+pub struct TwoTerm;
+
+const TWO_TERM_VALUES: [(i64, i64); 6] = [(1000, 1), (1, 1), (3, -2), (16384, 16384), (-16384, 7), (1, 16384)];
+
+impl Sub for TwoTerm {
+    type Case = TwoTermCase;
+    fn restrictable(&self) -> bool {
+        true
+    }
+    fn name(&self) -> &'static str {
+        "fft_two_term_polynomials"
+    }
+    fn strategy(&self, _env: &Env) -> BoxedStrategy<TwoTermCase> {
+        (1u32..=10, 0usize..6).prop_flat_map(|(l, v)| (Just(1usize << l), 1usize..(1usize << l), Just(v))).prop_map(|(n, k, v)| TwoTermCase { n, k, c: TWO_TERM_VALUES[v].0, d: TWO_TERM_VALUES[v].1 }).boxed()
+    }
+    fn check(&self, c: &TwoTermCase, st: &mut Stats) -> Result<(), Fail> {
+        let n = c.n;
+        if n < 2 || !n.is_power_of_two() || n > 1024 || c.k == 0 || c.k >= n || c.c.abs() > 16384 || c.d.abs() > 16384 {
+            return Ok(());
+        }
+        let mut a = vec![0i64; n];
+        a[0] = c.c;
+        a[c.k] = c.d;
+        let b: Vec<i64> = (0..n).map(|j| ((j * 37 + c.k * 11) % 2049) as i64 - 1024).collect();
+        let mut scratch = Stats::default();
+        Product.check(&ProductCase { a: a.clone(), b, shift_a: 0, shift_b: 0, scale_a: 0, scale_b: 0 }, &mut scratch)
+            .map_err(|f| Fail::new(format!("{}-two-term", f.key), format!("a = {} + {} X^{} (n = {}): {}", c.c, c.d, c.k, n, f.msg)))?;
+        // and as the second operand: b = c' + d' X^k within the 2^10 range, a fixed and dense
+        let mut b2 = vec![0i64; n];
+        b2[0] = c.c.clamp(-1024, 1024);
+        b2[c.k] = c.d.clamp(-1024, 1024);
+        let a2: Vec<i64> = (0..n).map(|j| ((j * 8191 + c.k * 131) % 32769) as i64 - 16384).collect();
+        Product.check(&ProductCase { a: a2, b: b2, shift_a: 0, shift_b: 0, scale_a: 0, scale_b: 0 }, &mut scratch)
+            .map_err(|f| Fail::new(format!("{}-two-term-b", f.key), format!("b = {} + {} X^{} (n = {}): {}", c.c.clamp(-1024, 1024), c.d.clamp(-1024, 1024), c.k, n, f.msg)))?;
+        st.nontrivial_enumerated += 1;
+        if 2 * c.k == n {
+            st.count("two_term_half_degree");
+        }
+        st.count(&format!("two_term_n{}", n));
+        Ok(())
+    }
+}
+
 /// The same low-degree real polynomials, zero-padded, in several lengths one after the other.
 #[derive(Clone, Debug, Serialize, Deserialize)]
 pub struct SeqCase {
@@ -246,7 +314,7 @@ impl Sub for Sequence {
 }
 
 const META: Meta = Meta {
-    rule: "complete enumeration of all basis vectors X^i for n = 2..1024 (every evaluation point fft(X)[k] within 2^-30 of e^(i pi m/n) for a distinct odd m computed by the harness with libm, fft(X^i)[k] within 2^-30 of its i-th power, round trip); proptest operands for n = 2..1024: a with |a_i| <= 2^14, b with |b_i| <= 2^10, integers or dyadic rationals k/2^s (s <= 20), optionally scaled down uniformly by 2^-1..2^-60 (the bound is relative to the operands' norms, so it must hold at every scale), uniform / constant / alternating / single spike at the magnitude limit / small; the same low-degree operands zero-padded to 2-5 lengths in sequence on one thread; oracle = exact negacyclic product in i128 converted to f64; tolerance = the property's 2^-30 relative to the operands' norms. Non-trivial = n >= 64 or an operand at the magnitude limit (hash-distinct); basis vectors are distinct by construction.",
+    rule: "complete enumeration of all basis vectors X^i for n = 2..1024 (every evaluation point fft(X)[k] within 2^-30 of e^(i pi m/n) for a distinct odd m computed by the harness with libm, fft(X^i)[k] within 2^-30 of its i-th power, round trip); proptest operands for n = 2..1024: a with |a_i| <= 2^14, b with |b_i| <= 2^10, integers or dyadic rationals k/2^s (s <= 20), optionally scaled down uniformly by 2^-1..2^-60 (the bound is relative to the operands' norms, so it must hold at every scale), uniform / constant / alternating / single spike at the magnitude limit / small / two to four terms at structured positions (0, n/4, n/2, 3n/4, n-1, anywhere); complete enumeration of the two-term polynomials c + d X^k for every n = 2..1024, every k and six (c, d), as first and as second operand against a fixed dense partner; the same low-degree operands zero-padded to 2-5 lengths in sequence on one thread; oracle = exact negacyclic product in i128 converted to f64; tolerance = the property's 2^-30 relative to the operands' norms. Non-trivial = n >= 64 or an operand at the magnitude limit (hash-distinct); basis vectors are distinct by construction.",
     assumptions: &[
         "oracle: exact integer product (i128) and libm sin/cos; tolerance 2^-30 as the property states (the implementation achieves about 1e-15, so honest rounding cannot trip it)",
     ],
@@ -255,7 +323,7 @@ const META: Meta = Meta {
 pub fn run(env: &Env, replay: Option<&Path>) -> i32 {
     let mut report = Report::new();
     let cold = crate::coldstart::ColdStart("C13");
-    let subs: [&dyn DynSub; 4] = [&Basis, &Product, &Sequence, &cold];
+    let subs: [&dyn DynSub; 5] = [&Basis, &Product, &Sequence, &cold, &TwoTerm];
     if let Some(p) = replay {
         if let Err(e) = replay_file(env, &subs, p, &mut report) {
             eprintln!("harness: {}", e);
@@ -266,6 +334,8 @@ pub fn run(env: &Env, replay: Option<&Path>) -> i32 {
     replay_corpus(env, &subs, &mut report);
     let b = (1u32..=10).flat_map(|l| (0..(1usize << l)).map(move |i| BasisCase { n: 1 << l, i }));
     drive_enumerated(env, &Basis, b, &mut report);
+    let tt = (1u32..=10).flat_map(|l| (1..(1usize << l)).flat_map(move |k| TWO_TERM_VALUES.iter().map(move |&(c, d)| TwoTermCase { n: 1 << l, k, c, d })));
+    drive_enumerated(env, &TwoTerm, tt, &mut report);
     drive(env, &Product, env.tier.pick(60_000, 600_000), &mut report);
     drive(env, &Sequence, env.tier.pick(10_000, 200_000), &mut report);
     // fresh processes whose threads make their first calls at the same moment
